@@ -156,6 +156,7 @@ prop('C07', [
     state.r_writers,
     raw.r_raw,
     reord.r_live_levels,
+    state.r_levelsets,
 ],
     'swap: old children released and new children acquired for every '
     'rewritten node, candidates handed to the rooted collection, '
